@@ -209,7 +209,7 @@ def r2_check_impl(cx):
             ni = b.calls(r"ManifestCheckStream::<.*>::new_from_offset_iter")
             # PackOffsetsIter::new may sit in a helper of the same type (packs_offset())
             po = []
-            for g in [f] + [F.fns[x] for x in F.reach([f]) if isinstance(x, int) and F.fns[x].get("impl_self", "").endswith("ManifestPack") and x != f["id"] and "blocks" in F.fns[x]]:
+            for g in [f] + [F.fns[x] for x in F.reach([f]) if isinstance(x, int) and F.fns[x].get("impl_self", "").endswith("ManifestPack") and x != f["id"] and "blocks" in F.fns[x] and x not in F.absorbed]:
                 gb = F.body(g)
                 for i, t in gb.calls(r"PackOffsetsIter::new$"):
                     po.append((g, gb, t))
